@@ -23,3 +23,166 @@ def register_failing_actors(router, log):
         return 1
 
     router.actor(name="strict")(strict)
+
+
+# ---------------------------------------------------------------------------------------------- C18: dependency graphs
+import inspect
+from typing import Any
+
+
+def make_provider(name, subdeps, *, is_async, extra_default=None, fail=False, record=None, msg_leaf=False):
+    """Provider returning the token (name, sorted(resolved sub-dependency values)).
+    subdeps: list of (param_name, Depends object)."""
+    def compute(kw):
+        if record is not None:
+            record.append(name)
+        if fail:
+            raise ConnectionError(f"provider {name} failed")
+        items = []
+        for k, v in sorted(kw.items()):
+            if k == "m":
+                items.append(("m", ("msg", v.key.id_)))
+            else:
+                items.append((k, v))
+        return (name, tuple(items))
+
+    if is_async:
+        async def prov(**kw):
+            return compute(kw)
+    else:
+        def prov(**kw):
+            return compute(kw)
+
+    params = [inspect.Parameter(p, inspect.Parameter.KEYWORD_ONLY, annotation=Annotated[Any, d]) for p, d in subdeps]
+    if msg_leaf:
+        params.append(inspect.Parameter("m", inspect.Parameter.KEYWORD_ONLY, annotation=MessageDependency))
+    if extra_default is not None:
+        params.append(inspect.Parameter("plain", inspect.Parameter.KEYWORD_ONLY, default=extra_default, annotation=int))
+    prov.__signature__ = inspect.Signature(params)
+    prov.__name__ = f"prov_{name}"
+    return prov
+
+
+def make_dep_actor(name, dep_params, plain_params, log, received):
+    """Actor with dependency parameters `dep_params` [(pname, Depends)] interleaved with payload parameters
+    `plain_params` [(pname, kind, default|inspect._empty)]; records the kwargs it was called with."""
+    async def body(*a, **kw):
+        m = kw.get("m")
+        rid = m.key.id_ if m is not None else None
+        received.append({"actor": name, "id": rid, "args": list(a), "kwargs": {k: v for k, v in kw.items() if k != "m"}})
+        log.add(k="actor_start", id=rid, attempt=m.parameters.retries.already_tried if m is not None else 0, actor=name)
+        return 1
+
+    params = []
+    for pname, kind, default in plain_params:
+        if kind == "po":
+            params.append(inspect.Parameter(pname, inspect.Parameter.POSITIONAL_ONLY, default=default, annotation=int))
+    mixed = [(p, "dep", d) for p, d in dep_params] + [(p, k, d) for p, k, d in plain_params if k == "pk"]
+    mixed.sort(key=lambda x: x[0])
+    # parameters with defaults must follow those without among positional-or-keyword ones
+    no_def = [x for x in mixed if x[1] == "dep" or x[2] is inspect.Parameter.empty]
+    with_def = [x for x in mixed if not (x[1] == "dep" or x[2] is inspect.Parameter.empty)]
+    for pname, k, d in no_def + with_def:
+        if k == "dep":
+            params.append(inspect.Parameter(pname, inspect.Parameter.POSITIONAL_OR_KEYWORD, annotation=Annotated[Any, d]))
+        else:
+            params.append(inspect.Parameter(pname, inspect.Parameter.POSITIONAL_OR_KEYWORD, default=d, annotation=int))
+    for pname, kind, default in plain_params:
+        if kind == "ko":
+            params.append(inspect.Parameter(pname, inspect.Parameter.KEYWORD_ONLY, default=default, annotation=int))
+    params.append(inspect.Parameter("m", inspect.Parameter.KEYWORD_ONLY, annotation=MessageDependency))
+    body.__signature__ = inspect.Signature(params)
+    body.__name__ = name
+    return body
+
+
+def declarations(out, stats, fps, V):
+    """Unsupported declarations are rejected when declared (ValueError), never accepted to fail at run time."""
+    from repid import Depends, Router
+    from repid.converter import BasicConverter, PydanticConverter
+    from repid.router import RouterDefaults
+
+    def ok():
+        return 1
+
+    d = Depends(ok)
+    shapes = []
+
+    def po_dep(a: Annotated[Any, d], /):
+        ...
+
+    def po_dep2(x: int, a: Annotated[Any, d], /, y: int = 1):
+        ...
+
+    shapes.append(("actor/positional-only-dependency", "both", po_dep))
+    shapes.append(("actor/positional-only-dependency-2", "both", po_dep2))
+
+    def var_args(*args):
+        ...
+
+    def var_kwargs(**kwargs):
+        ...
+
+    def var_both(a: int, *args, **kwargs):
+        ...
+
+    shapes.append(("actor/var-positional", "pydantic", var_args))
+    shapes.append(("actor/var-keyword", "pydantic", var_kwargs))
+    shapes.append(("actor/var-both", "pydantic", var_both))
+    for tag, which, fn in shapes:
+        for cname, conv in (("basic", BasicConverter), ("pydantic", PydanticConverter)):
+            if which != "both" and which != cname:
+                continue
+            stats["declaration_rejections"] += 1
+            fps.add(f"decl/{tag}/{cname}")
+            r = Router(defaults=RouterDefaults(converter=conv))
+            try:
+                r.actor(fn)
+                out.append(V("late_rejection", tag, f"{tag} under {cname}: accepted at declaration"))
+            except ValueError:
+                pass
+            except Exception as exc:  # noqa: BLE001
+                out.append(V("late_rejection", tag + "/wrong-exception", f"{tag} under {cname}: raised {type(exc).__name__}: {exc}"))
+    # providers
+    prov_shapes = []
+
+    def p_required(x):
+        ...
+
+    def p_required_kw(*, x):
+        ...
+
+    def p_po_dep(a: Annotated[Any, d], /):
+        ...
+
+    def p_varargs(*args):
+        ...
+
+    def p_varkw(**kw):
+        ...
+
+    async def p_async_required(x: int):
+        ...
+
+    for tag, fn in (("provider/required-plain", p_required), ("provider/required-kwonly", p_required_kw), ("provider/positional-only-dependency", p_po_dep),
+                    ("provider/var-positional", p_varargs), ("provider/var-keyword", p_varkw), ("provider/async-required", p_async_required)):
+        stats["declaration_rejections"] += 1
+        fps.add(f"decl/{tag}")
+        try:
+            Depends(fn)
+            out.append(V("late_rejection", tag, f"Depends({fn.__name__}) accepted"))
+        except ValueError:
+            pass
+        except Exception as exc:  # noqa: BLE001
+            out.append(V("late_rejection", tag + "/wrong-exception", f"{tag}: {type(exc).__name__}: {exc}"))
+        # ... and as an override
+        good = Depends(ok)
+        try:
+            good.override(fn)
+            out.append(V("late_rejection", tag + "/override", f"override({fn.__name__}) accepted"))
+        except ValueError:
+            pass
+        except Exception as exc:  # noqa: BLE001
+            out.append(V("late_rejection", tag + "/override-wrong-exception", f"{tag}: {type(exc).__name__}: {exc}"))
+
+
